@@ -417,6 +417,11 @@ def initWith (rec : Ty → Val → Comp) (E : Env) (k : Nat) (keys : List String
     | (.error e, s1) => (.error e, s1)
     | (.ok vals, s1) => mkInstance k d vals s1
 
+/-- a set with more than one element: its iteration order is not modelled -/
+def unorderedSrc : Val → Bool
+  | .node _ k' _ its => k'.isSet && its.length > 1
+  | _ => false
+
 /-- The type transformer on the modelled fragment.  `fuel` bounds the nesting of data classes and types. -/
 def conv (E : Env) (o : Opts) : Nat → Ty → Val → Comp
   | 0, _, _ => fun s => (.error .fuel, s)
@@ -447,10 +452,7 @@ def conv (E : Env) (o : Opts) : Nat → Ty → Val → Comp
             | (.ok items', s3) => (.ok (.node s1.next .dict keys items'), s3)
         | (.ok _, s1) => (.error (.unmodelled "origin transform returned an atom"), s1)
     | .tup ts =>
-        let unordered := match v with
-          | .node _ k' _ its => k'.isSet && its.length > 1
-          | _ => false
-        if unordered then (.error (.unmodelled "tuple from a set (iteration order)"), s) else
+        if unorderedSrc v then (.error (.unmodelled "tuple from a set (iteration order)"), s) else
         match convBare o .tuple v s with
         | (.error e, s1) => (.error e, s1)
         | (.ok (.node _ _ _ items), s1) =>
@@ -633,12 +635,23 @@ def entriesOf : Val → List String × List Val
 
 def World.root (w : World) (r : Nat) : Option Val := (w.roots[r]?).bind id
 
+/-- what an in-place write by library code would do to a caller-visible object: anything.  The model
+empties the object, so that a write to an existing object shows in the world (and in the correspondence). -/
+def clobber : Kind → List String → List Val → Option (List String × List Val) := fun _ _ _ => some ([], [])
+
+/-- apply the call's logged in-place writes to everything that existed before the call -/
+def World.applyWrites (w : World) (writes : List Nat) : World := writes.foldl (fun w i => w.writeAll i clobber) w
+
 def World.stepWith (cp : Val → Comp) (optsOf : List (Option Opts) → Nat → Opts) (w : World) : Op → World × Outcome
   | .call target wrapper bump input =>
       let s : St := { next := w.next + bump }
       match callWith optsOf w.env target wrapper (entriesOf input).1 (entriesOf input).2 s with
-      | (.ok r, s1) => ({ w with next := s1.next, roots := w.roots ++ [some input, some r] }, .ok)
-      | (.error e, s1) => ({ w with next := s1.next, roots := w.roots ++ [some input, Option.none] }, .ofErr e)
+      | (.ok r, s1) =>
+          let w1 := { w with roots := w.roots ++ [some input] }.applyWrites s1.writes
+          ({ w1 with next := s1.next, roots := w1.roots ++ [some r] }, .ok)
+      | (.error e, s1) =>
+          let w1 := { w with roots := w.roots ++ [some input] }.applyWrites s1.writes
+          ({ w1 with next := s1.next, roots := w1.roots ++ [Option.none] }, .ofErr e)
   | .mutate i act => (w.writeAll i act.apply, .ok)
   | .setattr r fname v =>
       match w.root r with
